@@ -1,4 +1,4 @@
-import PPLV.Lin.Ops
+import PPLV.Lin.Parse
 
 /-! `pplv_lin`: replays a polyhedron journal on the reference model and decides every
 observation with the verified K1 procedures.  See `harness/c01_poly.cc` for the grammar. -/
@@ -14,60 +14,6 @@ structure St where
   nSkip : Nat := 0
 
 abbrev M := StateT St IO
-
-def tokInt (s : String) : Int := s.toInt?.getD 0
-def tokNat (s : String) : Nat := s.toNat?.getD 0
-
-/-- parse `n` integers -/
-def takeInts (n : Nat) (ts : List String) : List Int × List String :=
-  ((ts.take n).map tokInt, ts.drop n)
-
-def parseCon (n : Nat) (ts : List String) : List Con × List String :=
-  match ts with
-  | rel :: k :: rest =>
-    let (cf, rest') := takeInts n rest
-    let kk := tokInt k
-    let rows := if rel == "=" then eqRows cf kk else if rel == ">" then [gtRow cf kk] else [geRow cf kk]
-    (rows, rest')
-  | _ => ([], [])
-
-def parseCS (n : Nat) (ts : List String) : List Con × List String :=
-  match ts with
-  | m :: rest =>
-    let rec go (k : Nat) (ts : List String) (acc : List Con) : List Con × List String :=
-      match k with
-      | 0 => (acc, ts)
-      | k+1 => let (rows, ts') := parseCon n ts; go k ts' (acc ++ rows)
-    go (tokNat m) rest []
-  | [] => ([], [])
-
-def parseGen (n : Nat) (ts : List String) : Option Gen × List String :=
-  match ts with
-  | kd :: d :: rest =>
-    let (cf, rest') := takeInts n rest
-    let kind := if kd == "l" then GKind.line else if kd == "r" then .ray else if kd == "p" then .point else .cpoint
-    (some ⟨kind, cf, tokInt d⟩, rest')
-  | _ => (none, [])
-
-def parseGS (n : Nat) (ts : List String) : List Gen × List String :=
-  match ts with
-  | m :: rest =>
-    let rec go (k : Nat) (ts : List String) (acc : List Gen) : List Gen × List String :=
-      match k with
-      | 0 => (acc, ts)
-      | k+1 => match parseGen n ts with
-        | (some g, ts') => go k ts' (acc ++ [g])
-        | (none, ts') => (acc, ts')
-    go (tokNat m) rest []
-  | [] => ([], [])
-
-def parseExpr (n : Nat) (ts : List String) : LinExpr × List String :=
-  match ts with
-  | k :: rest => let (cf, rest') := takeInts n rest; (⟨cf, tokInt k⟩, rest')
-  | [] => (⟨[], 0⟩, [])
-
-def parseRel (s : String) : Rel :=
-  if s == "<" then .lt else if s == "<=" then .le else if s == "=" then .eq else if s == ">=" then .ge else .gt
 
 def getSlot (i : Nat) : M (Option RefPoly) := do return (← get).slots.getD i none
 def setSlot (i : Nat) (p : RefPoly) : M Unit :=
